@@ -16,6 +16,8 @@ struct Easy {
 	std::string url;
 	bool has_url = false;
 	const char *postfields = nullptr;
+	std::string post_copy;     // CURLOPT_COPYPOSTFIELDS
+	bool has_copy = false;
 	long postsize = -1;
 	long post = 0;
 	curl_write_callback writefn = nullptr;
@@ -119,8 +121,11 @@ static Xfer *start_xfer(Easy *e, bool blocking) {
 	x->easy = e;
 	x->blocking = blocking;
 	x->url = e->url;
-	x->is_post = e->post != 0 || e->postfields != nullptr;
+	x->is_post = e->post != 0 || e->postfields != nullptr || e->has_copy;
 	x->added_seq = K.ev("http x%d add url=%s", x->idx, e->url.c_str());
+	x->added_ms = K.now_ms;
+	if (e->has_copy) x->body_at_add = e->post_copy;
+	else if (e->postfields) x->body_at_add.assign(e->postfields, e->postsize >= 0 ? (size_t)e->postsize : strlen(e->postfields));
 	Xfer *r = x.get();
 	C.xfers.push_back(std::move(x));
 	e->xfer = r;
@@ -139,7 +144,7 @@ static bool step(Xfer &x) {
 		x.ep = find_ep(x.url, x.path);
 		if (x.ep < 0) { K.count("net.dns_unknown"); finish(x, CURLE_COULDNT_RESOLVE_HOST, "Could not resolve host"); return true; }
 		NetEndpoint &ep = N.eps[x.ep];
-		if (ep.dnsfail_next > 0) { ep.dnsfail_next--; K.count("fault.dnsfail"); finish(x, CURLE_COULDNT_RESOLVE_HOST, "Could not resolve host"); return true; }
+		if (ep.dnsfail_next > 0) { ep.dnsfail_next--; K.count("fault.dnsfail"); N.dnsfail_log.push_back({K.seq, x.ep}); finish(x, CURLE_COULDNT_RESOLVE_HOST, "Could not resolve host"); return true; }
 		if (ep.blackhole) { x.will_blackhole = true; K.count("fault.blackhole_connect"); }
 		else if (ep.refuse_next > 0) { ep.refuse_next--; x.will_refuse = true; K.count("fault.refuse"); }
 		x.ready_at = K.now_ms + ep.connect_delay_ms;
@@ -158,7 +163,8 @@ static bool step(Xfer &x) {
 		if (x.will_refuse) { finish(x, CURLE_COULDNT_CONNECT, "Connection refused"); return true; }
 		// connected: the request goes out now. libcurl does not copy CURLOPT_POSTFIELDS; it reads the caller's
 		// buffer at this point.
-		if (e->postfields) {
+		if (e->has_copy) x.req_body = e->post_copy;
+		else if (e->postfields) {
 			size_t n = e->postsize >= 0 ? (size_t)e->postsize : strlen(e->postfields);
 			x.req_body.assign(e->postfields, n);
 		}
@@ -274,7 +280,12 @@ CURLcode curl_easy_setopt(CURL *h, CURLoption opt, ...) {
 	if (!e) return CURLE_BAD_FUNCTION_ARGUMENT;
 	switch (opt) {
 		case CURLOPT_URL: e->url = pv ? (const char *)pv : ""; e->has_url = pv != nullptr; C.urls_seen.push_back(e->url); break;
-		case CURLOPT_POSTFIELDS: e->postfields = (const char *)pv; break;
+		case CURLOPT_POSTFIELDS: e->postfields = (const char *)pv; e->has_copy = false; break;
+		case CURLOPT_COPYPOSTFIELDS:
+			// copied at once, using the size set before (strlen if none), as libcurl documents
+			if (pv) { e->post_copy.assign((const char *)pv, e->postsize >= 0 ? (size_t)e->postsize : strlen((const char *)pv)); e->has_copy = true; e->postfields = nullptr; }
+			else { e->has_copy = false; e->postfields = nullptr; }
+			break;
 		case CURLOPT_POSTFIELDSIZE: e->postsize = lv; break;
 		case CURLOPT_POST: e->post = lv; break;
 		case CURLOPT_WRITEFUNCTION: e->writefn = (curl_write_callback)pv; break;
